@@ -8,6 +8,13 @@ from qdriver import FAMILIES
 MAGS = [["int", "3", "1"], ["int", "-2", "1"], ["int", "0", "1"], ["int", "1000", "1"], ["int", "1", "1"], ["float", "5", "2"], ["float", "-7", "4"],
         ["float", "1", "8"], ["float", "1000", "1"], ["dec", "5", "4"], ["dec", "-3", "1"], ["dec", "1000", "1"], ["int", "12", "1"], ["int", "36", "1"]]
 
+def dec_prefix_tie(l, r):
+    """equal physical values, one magnitude a Decimal and the other not, on prefixed units: the comparison multiplies the Decimal by
+    Decimal(float prefix value) and the other by the float itself, so it is decided by rounding (1000 mL vs Decimal(1000) mL) - a
+    floating-point tie in the sense of the property"""
+    kinds = {l["m"][0], r["m"][0]}
+    return "dec" in kinds and len(kinds) > 1 and (l["u"]["p"] != [0, 0] or r["u"]["p"] != [0, 0])
+
 def main():
     c = Check("C12")
     c.static_theorems()
@@ -91,7 +98,7 @@ def main():
         if any("err" in x for x in R.values()):
             c.violation("raises:compare", f"comparison of convertible quantities raised: {R}", repl); continue
         tie = va and vb and va[0] != vb[0] and qdriver.rel_close(va[0], vb[0], Fraction(1, 10**7))
-        exact_tie_via_float = va and vb and va[0] == vb[0] and la["u"]["f"] != lb["u"]["f"]
+        exact_tie_via_float = va and vb and va[0] == vb[0] and (la["u"]["f"] != lb["u"]["f"] or dec_prefix_tie(la, lb))
         if tie or exact_tie_via_float: continue
         g = lambda k: R[k]["b"]
         if refl != {"t": "bool", "b": True}: c.violation("eq-reflexive", f"a == a is {refl}", repl)
@@ -114,7 +121,7 @@ def main():
         if case["op"] == "hash_eq": continue
         vl, vr = O.si(rec["l"]), O.si(rec["r"])
         if vl and vr and vl[0] != vr[0] and qdriver.rel_close(vl[0], vr[0], Fraction(1, 10**7)): continue
-        if vl and vr and vl[0] == vr[0] and rec["l"]["u"]["f"] != rec["r"]["u"]["f"]: continue
+        if vl and vr and vl[0] == vr[0] and (rec["l"]["u"]["f"] != rec["r"]["u"]["f"] or dec_prefix_tie(rec["l"], rec["r"])): continue
         keep.append(i)
     bad = qgen.run_shards(c, "C12", [cases[i] for i in keep], [recs[i] for i in keep], convtbl)
     for i in bad[:5]:
